@@ -22,7 +22,7 @@ from dv import core
 from dv.core import cz, cbool, clist
 from dv import c20_gen as G
 
-HEADER = ("From DV Require Import Model.PyPrims Model.C20Model Model.C20Nexus Model.C20Case.\n"
+HEADER = ("From DV Require Import Model.PyPrims Model.C20Model Model.C20Nexus2 Model.C20Case2.\n"
           "From Coq Require Import ZArith. Open Scope Z_scope.")
 
 FAST_ALARM = 0.35     # first attempt; a timeout is confirmed under SLOW_ALARM before it counts as Hang
@@ -122,6 +122,11 @@ def _call(reader, text, opts):
     if reader == "nexus_chars":
         m = dendropy.DnaCharacterMatrix.get(data=text, schema="nexus", **opts)
         return {"matrices": [{"rows": len(m), "lens": [len(m[t]) for t in m]}]}
+    if reader in ("nexus_yield", "newick_yield", "nexusnewick_yield"):
+        # the tree yielders (nexusyielder.py / newickyielder.py): Tree.yield_from_files
+        schema = {"nexus_yield": "nexus", "newick_yield": "newick", "nexusnewick_yield": "nexus/newick"}[reader]
+        ts = list(dendropy.Tree.yield_from_files(files=[io.StringIO(text)], schema=schema, **opts))
+        return {"trees": len(ts), "problems": [p for t in ts for p in _tree_problems(t)][:3]}
     if reader == "phylip":
         m = dendropy.DnaCharacterMatrix.get(data=text, schema="phylip", **opts)
         return {"rows": _matrix_rows(m)}
@@ -315,6 +320,23 @@ def dna_symbol_table():
     return _dna_syms
 
 
+_alpha_tabs = None
+
+
+def alphabet_tables():
+    """data type code (C20Nexus2.dtype_code) -> the single-character keys of that alphabet's symbol map"""
+    global _alpha_tabs
+    if _alpha_tabs is None:
+        import dendropy
+        tabs = []
+        for code, sa in ((0, dendropy.DNA_STATE_ALPHABET), (1, dendropy.RNA_STATE_ALPHABET),
+                         (2, dendropy.NUCLEOTIDE_STATE_ALPHABET), (3, dendropy.PROTEIN_STATE_ALPHABET)):
+            keys = sorted(ord(k) for k in sa.full_symbol_state_map if isinstance(k, str) and len(k) == 1)
+            tabs.append("(%s, %s)" % (cz(code), clist([cz(k) for k in keys])))
+        _alpha_tabs = clist(tabs)
+    return _alpha_tabs
+
+
 def c_popts(opts, variants):
     return "(mkPopts %s %s %s %s %s false %s %s)" % (
         cbool(opts.get("strict", False)), cbool(opts.get("interleaved", False)),
@@ -333,7 +355,7 @@ def c_obs(reader, ob):
         ok = ob["ok"]
         if reader in ("phylip", "fasta"):
             return "(XRows %s)" % clist(["(%s, %s)" % (cstr(l), cstr(s)) for l, s in ok["rows"]])
-        if reader == "newick":
+        if reader in ("newick", "newick_yield"):
             return "(XTrees %s)" % cz(ok["trees"])
         return "XOk"
     return "(XErr %s)" % (cls if cls in ERR_NAMES else "OtherErr")
@@ -374,22 +396,31 @@ def to_coq(case, obs):
         rd = "(RPhylip %s)" % c_popts(opts, VARIANTS)
     elif reader == "fasta":
         rd = "RFasta"
-    elif reader == "newick":
-        rd = "RNewick"
+    elif reader in ("newick", "newick_yield"):
+        rd = "RNewick"           # the yielder drives the same NewickReader._parse_tree_statement
     elif reader == "nexus":
         rd = "(RNexus (mkFix %s))" % " ".join(cbool(VARIANTS[n]) for n in NFIX_ORDER)
     else:
         raise ValueError(reader)
     syms = clist(["(%s, %s)" % (cz(ord(k)), cz(ord(v))) for k, v in sorted(dna_symbol_table().items())])
-    floats = clist([cstr(t) for t in float_tokens(case["text"])]) if reader in ("newick", "nexus") else "[]"
+    if reader in ("newick", "nexus", "newick_yield"):
+        fl = float_tokens(case["text"])
+        for k in case.get("cuts", []):          # a cut can leave a shorter numeral ("0.5" -> "0.")
+            for t in float_tokens(case["text"][:k])[-2:]:
+                if t not in fl:
+                    fl.append(t)
+        floats = clist([cstr(t) for t in fl])
+    else:
+        floats = "[]"
     if "cuts" in case:
         exp = clist(["(%s, %s)" % (cz(k), c_obs(reader, ob)) for k, ob in zip(case["cuts"], obs)])
     else:
         exp = clist(["(%s, %s)" % (cz(len(case["text"])), c_obs(reader, obs))])
-    return "(mkCase %s %s %s %s %s %s)" % (rd, cstr(case["text"]), syms, floats, cbool(case.get("slack", False)), exp)
+    alpha = alphabet_tables() if reader == "nexus" else "[]"
+    return "(mkCase %s %s %s %s %s %s %s)" % (rd, cstr(case["text"]), syms, alpha, floats, cbool(case.get("slack", False)), exp)
 
 
-MODEL_READERS = ("phylip", "fasta", "newick", "nexus")
+MODEL_READERS = ("phylip", "fasta", "newick", "nexus", "newick_yield")
 
 
 def modelled(case):
@@ -410,8 +441,7 @@ def modelled(case):
 # which form of the recorded defect sites does the working tree have? (DESIGN 5.2)
 # ---------------------------------------------------------------------------------------------
 
-NFIX_ORDER = ["link", "positions", "step0", "empty", "taxlabels_eof", "taxlabels_nodims", "tree_eof", "untitled",
-              "blockterm", "datatype", "truncmatrix", "charsetdup"]
+NFIX_ORDER = ["cblock", "alpha", "ildims"]
 
 
 def probe_variants():
@@ -421,9 +451,9 @@ def probe_variants():
     v["phylip_fmt_fixed"] = ob["cls"] != "TypeErr"
     ob = observe_text("phylip", "2 4\na ACGT\nb ACG\n", {})
     v["phylip_dims_fixed"] = ob["cls"] == "ParseErr"
-    for name, (text, broken_cls) in G.NEXUS_SITE_WITNESS.items():
+    for name, (text, broken) in G.NEXUS_SITE_WITNESS.items():
         ob = observe_text("nexus", text, {})
-        v[name] = ob["cls"] != broken_cls
+        v[name] = not broken(ob)
     return v
 
 
@@ -478,7 +508,7 @@ def run(tier, seed, replay=None):
     VARIANTS = probe_variants()
     ctx.notes.append("defect-site forms of the working tree: %s" % json.dumps(VARIANTS, sort_keys=True))
     # -k and the model targets first: the models must be rebuilt from the new Gen even when a proof breaks
-    ok = core.proof_stage(ctx, ["-k", "Model/C20Case.vo", "Props/C20.vo"], gen_needed=("ReaderLoops", "CharClasses"))
+    ok = core.proof_stage(ctx, ["-k", "Model/C20Case2.vo", "Props/C20.vo"], gen_needed=("ReaderLoops", "CharClasses"))
     if not ok:
         core.broken_proof(ctx, search)
 
